@@ -10,14 +10,14 @@ Local Open Scope list_scope.
    next(iter(x.values()))) is bounded by [bound h], a function of the hint alone: for every
    object of any size and nesting, every draw, both sampler modes, on the accepting and on the
    rejecting path alike. *)
-Theorem C09_check_bound : forall cf r preds h x,
+Theorem C09_check_bound : forall cf r pb h x,
   hint_ok h = true -> wf x = true ->
-  reads (trace_of r preds (check_expr cf h) x) <= bound h.
+  reads (trace_of r (preds_of pb) (check_expr cf h) x) <= bound h.
 Proof.
-  intros cf r preds h x Hok Hw. unfold trace_of.
-  destruct (eval r preds (check_expr cf h) (st0 x)) as [[v|e] s'] eqn:E.
+  intros cf r pb h x Hok Hw. unfold trace_of.
+  destruct (eval r (preds_of pb) (check_expr cf h) (st0 x)) as [[v|e] s'] eqn:E.
   - eapply check_reads_bounded; eauto.
-  - exfalso. pose proof (check_expr_correct cf r preds h x Hok Hw) as H. unfold verdict in H. rewrite E in H.
+  - exfalso. pose proof (check_expr_correct cf r pb h x Hok Hw) as H. unfold verdict in H. rewrite E in H.
     discriminate.
 Qed.
 Print Assumptions C09_check_bound.
@@ -41,12 +41,12 @@ Print Assumptions C09_bound_per_level.
 
 (* iterables that are not collections are not iterated at all: every next(iter(.)) is on a
    Collection (see also C10) *)
-Theorem C09_noniter : forall cf r preds h x,
+Theorem C09_noniter : forall cf r pb h x,
   hint_ok h = true -> wf x = true ->
-  forall v, In (TFirst v) (trace_of r preds (check_expr cf h) x) -> issub (type_of v) c_Collection = true.
+  forall v, In (TFirst v) (trace_of r (preds_of pb) (check_expr cf h) x) -> issub (type_of v) c_Collection = true.
 Proof.
-  intros cf r preds h x Hok Hw v Hin.
-  pose proof (check_expr_trace_safe cf r preds h x Hok Hw) as Hs. rewrite Forall_forall in Hs. exact (Hs _ Hin).
+  intros cf r pb h x Hok Hw v Hin.
+  pose proof (check_expr_trace_safe cf r pb h x Hok Hw) as Hs. rewrite Forall_forall in Hs. exact (Hs _ Hin).
 Qed.
 Print Assumptions C09_noniter.
 
@@ -56,7 +56,7 @@ Definition big (n : nat) : pyval :=
   VMap c_dict (map (fun i => (VStr (String (Ascii.ascii_of_nat (65 + i)) EmptyString),
                               VCont c_list (repeat (VCont c_set (map (fun j => VInt (Z.of_nat j)) (seq 0 n))) n)))
                    (seq 0 n)).
-Definition no_preds9 (f : nat) (v : pyval) : res pyval := Exc TypeError.
+Definition no_preds9 := preds_of (fun _ _ => false).
 
 Example C09_demo :
   bound h9 = 4 /\
